@@ -2,37 +2,11 @@
     every loop; Go-sized slices; the pooled counter buffer has its 8 bytes, whatever they are), and the
     decoder seen from the source side. *)
 From Coq Require Import ZifyN ZifyNat ZifyBool.
-From OtpV Require Import Prelude Sha GoSem Errors Decoder Derive Otp Ocra Suite LeakProofs Src SrcLift SrcEqDerive SrcEqOtp SrcEqOcra.
+From OtpV Require Import Prelude Sha GoSem Errors Decoder Derive Otp Ocra Suite LeakProofs SrcLift.
 Open Scope N_scope.
 
 Definition runs (fuel : nat) (junk secret : bytes) : Prop :=
   (22 <= fuel)%nat /\ (length secret < fuel)%nat /\ small secret /\ length junk = 8%nat.
-
-Lemma src_decode_ok fuel secret key : small secret -> (length secret < fuel)%nat ->
-  Src.DecodeSecret fuel secret = Val (key, None) <-> decode_secret secret = Ok key.
-Proof.
-  intros Hs Hf. pose proof (decode_cases fuel secret Hs Hf) as H.
-  destruct (decode_secret secret) as [k|e|]; split; intros H1.
-  - rewrite H in H1. inversion H1. reflexivity.
-  - inversion H1; subst. exact H.
-  - destruct H as [b H]. rewrite H in H1. discriminate.
-  - discriminate.
-  - rewrite H in H1. discriminate.
-  - discriminate.
-Qed.
-
-Lemma src_decode_err fuel secret e : small secret -> (length secret < fuel)%nat ->
-  (exists b, Src.DecodeSecret fuel secret = Val (b, Some e)) <-> decode_secret secret = Err e.
-Proof.
-  intros Hs Hf. pose proof (decode_cases fuel secret Hs Hf) as H.
-  destruct (decode_secret secret) as [k|e'|]; split; intros H1.
-  - destruct H1 as [b H1]. rewrite H in H1. discriminate.
-  - discriminate.
-  - destruct H as [b H]. destruct H1 as [b' H1]. rewrite H in H1. inversion H1. reflexivity.
-  - inversion H1; subst. exact H.
-  - destruct H1 as [b H1]. rewrite H in H1. discriminate.
-  - discriminate.
-Qed.
 
 Lemma lift_v_true o : lift_v o = Val (true, None) <-> fst o = Ok (true, None).
 Proof.
